@@ -205,6 +205,12 @@ def run(cx):
             rets = [n for n in walk_local(gf) if isinstance(n, ast.Return) and n.value is not None]
             cx.need(rets, "R16f", gf, "id generator returns nothing")
             for r in rets:
+                if const(r.value) and r.value.value is None and any(
+                        isinstance(e, ast.Compare) and len(e.ops) == 1 and isinstance(e.ops[0], ast.Is) and pol and (is_attr(e.left, counters) or is_name(e.left) and e.left.id in caps)
+                        and const(e.comparators[0]) and e.comparators[0].value is None
+                        for e, pol in facts(r)):
+                    cx.ob("R16b", r, True, "no id is handed out while the counter is disabled (the counter / the number captured from it is None)")
+                    continue
                 used = names_in(r.value) & set(caps)
                 # re-binding of the captured local after the region would break the link
                 rebound = [n for n in walk_local(gf) if isinstance(n, ast.Name) and n.id in caps and isinstance(n.ctx, ast.Store)
